@@ -217,19 +217,20 @@ FSV_DEF__ZNKSt8__detail20_Prime_rehash_policy14_M_need_rehashEmmm({
 #ifndef FSV_POW_MAX
 #define FSV_POW_MAX 12
 #endif
-double nondet_double(void);
-static double fsv_pow_x[FSV_POW_MAX], fsv_pow_y[FSV_POW_MAX], fsv_pow_r[FSV_POW_MAX];
+#include "fsv_harness.h"
+static fsv_f64 fsv_pow_x[FSV_POW_MAX], fsv_pow_y[FSV_POW_MAX], fsv_pow_r[FSV_POW_MAX];
 static int fsv_pow_n = 0;
 FSV_DEF_fsvx_pow({
+  if (a1 == 1.0) return a0;   /* exact by the C standard */
+  if (a1 == 0.0) return 1.0;
   for (int i = 0; i < FSV_POW_MAX; i++) if (i < fsv_pow_n && fsv_pow_x[i] == a0 && fsv_pow_y[i] == a1) return fsv_pow_r[i];
-  double r = nondet_double();
+  fsv_f64 r = FSV_NONDET_F64();
   if (a1 == 0.0) __CPROVER_assume(r == 1.0);
-  else if (a1 == 1.0) __CPROVER_assume(r == a0 || (__CPROVER_isnand(a0) && __CPROVER_isnand(r)));
+  else if (a1 == 1.0) __CPROVER_assume(r == a0 || (a0 != a0 && r != r));
   else if (a0 == 1.0) __CPROVER_assume(r == 1.0);
-  else if (a0 >= 0.0 && !__CPROVER_isnand(a1) && !__CPROVER_isinfd(a1)) {
-    __CPROVER_assume(!__CPROVER_isnand(r) && r >= 0.0);
+  else if (a0 >= 0.0 && FSV_ISFINITE(a1)) {
+    __CPROVER_assume(r == r && r >= 0.0);
     if (a0 == 0.0 && a1 > 0.0) __CPROVER_assume(r == 0.0);
-    if (a0 > 0.0 && !__CPROVER_isinfd(a0) && a1 > 0.0) __CPROVER_assume(1);
     for (int i = 0; i < FSV_POW_MAX; i++) if (i < fsv_pow_n && fsv_pow_y[i] == a1 && a1 > 0.0 && fsv_pow_x[i] >= 0.0) {
       if (fsv_pow_x[i] <= a0) __CPROVER_assume(fsv_pow_r[i] <= r);
       if (fsv_pow_x[i] >= a0) __CPROVER_assume(fsv_pow_r[i] >= r);
@@ -241,4 +242,150 @@ FSV_DEF_fsvx_pow({
 #else
 FSV_DEF_fsvx_pow({ return pow(a0, a1); })
 #endif
+#endif
+
+/* exception class constructors/destructors: empty (the throw itself is modelled by __cxa_throw) */
+#ifdef FSV_DEF__ZNSt13runtime_errorC1EPKc
+FSV_DEF__ZNSt13runtime_errorC1EPKc({})
+#endif
+#ifdef FSV_DEF__ZNSt13runtime_errorC2ERKNSt7__cxx1112basic_stringIcSt11char_traitsIcESaIcEEE
+FSV_DEF__ZNSt13runtime_errorC2ERKNSt7__cxx1112basic_stringIcSt11char_traitsIcESaIcEEE({})
+#endif
+#ifdef FSV_DEF__ZNSt13runtime_errorD0Ev
+FSV_DEF__ZNSt13runtime_errorD0Ev({})
+#endif
+#ifdef FSV_DEF__ZNSt16invalid_argumentC1ERKNSt7__cxx1112basic_stringIcSt11char_traitsIcESaIcEEE
+FSV_DEF__ZNSt16invalid_argumentC1ERKNSt7__cxx1112basic_stringIcSt11char_traitsIcESaIcEEE({})
+#endif
+#ifdef FSV_DEF__ZNSt16invalid_argumentC2EPKc
+FSV_DEF__ZNSt16invalid_argumentC2EPKc({})
+#endif
+#ifdef FSV_DEF__ZNSt16invalid_argumentC2ERKNSt7__cxx1112basic_stringIcSt11char_traitsIcESaIcEEE
+FSV_DEF__ZNSt16invalid_argumentC2ERKNSt7__cxx1112basic_stringIcSt11char_traitsIcESaIcEEE({})
+#endif
+#ifdef FSV_DEF__ZNSt16invalid_argumentD0Ev
+FSV_DEF__ZNSt16invalid_argumentD0Ev({})
+#endif
+#ifdef FSV_DEF__ZNSt16invalid_argumentD2Ev
+FSV_DEF__ZNSt16invalid_argumentD2Ev({})
+#endif
+#ifdef FSV_DEF__ZNSt12out_of_rangeC1ERKNSt7__cxx1112basic_stringIcSt11char_traitsIcESaIcEEE
+FSV_DEF__ZNSt12out_of_rangeC1ERKNSt7__cxx1112basic_stringIcSt11char_traitsIcESaIcEEE({})
+#endif
+#ifdef FSV_DEF__ZNSt12out_of_rangeC2EPKc
+FSV_DEF__ZNSt12out_of_rangeC2EPKc({})
+#endif
+#ifdef FSV_DEF__ZNSt12out_of_rangeC2ERKNSt7__cxx1112basic_stringIcSt11char_traitsIcESaIcEEE
+FSV_DEF__ZNSt12out_of_rangeC2ERKNSt7__cxx1112basic_stringIcSt11char_traitsIcESaIcEEE({})
+#endif
+#ifdef FSV_DEF__ZNSt12out_of_rangeD0Ev
+FSV_DEF__ZNSt12out_of_rangeD0Ev({})
+#endif
+#ifdef FSV_DEF__ZNSt12out_of_rangeD2Ev
+FSV_DEF__ZNSt12out_of_rangeD2Ev({})
+#endif
+#ifdef FSV_DEF__ZNSt11logic_errorC1EPKc
+FSV_DEF__ZNSt11logic_errorC1EPKc({})
+#endif
+#ifdef FSV_DEF__ZNSt11logic_errorC1ERKNSt7__cxx1112basic_stringIcSt11char_traitsIcESaIcEEE
+FSV_DEF__ZNSt11logic_errorC1ERKNSt7__cxx1112basic_stringIcSt11char_traitsIcESaIcEEE({})
+#endif
+#ifdef FSV_DEF__ZNSt11logic_errorC2EPKc
+FSV_DEF__ZNSt11logic_errorC2EPKc({})
+#endif
+#ifdef FSV_DEF__ZNSt11logic_errorC2ERKNSt7__cxx1112basic_stringIcSt11char_traitsIcESaIcEEE
+FSV_DEF__ZNSt11logic_errorC2ERKNSt7__cxx1112basic_stringIcSt11char_traitsIcESaIcEEE({})
+#endif
+#ifdef FSV_DEF__ZNSt11logic_errorD0Ev
+FSV_DEF__ZNSt11logic_errorD0Ev({})
+#endif
+#ifdef FSV_DEF__ZNSt11logic_errorD1Ev
+FSV_DEF__ZNSt11logic_errorD1Ev({})
+#endif
+#ifdef FSV_DEF__ZNSt11logic_errorD2Ev
+FSV_DEF__ZNSt11logic_errorD2Ev({})
+#endif
+#ifdef FSV_DEF__ZNSt12length_errorC1EPKc
+FSV_DEF__ZNSt12length_errorC1EPKc({})
+#endif
+#ifdef FSV_DEF__ZNSt12length_errorC1ERKNSt7__cxx1112basic_stringIcSt11char_traitsIcESaIcEEE
+FSV_DEF__ZNSt12length_errorC1ERKNSt7__cxx1112basic_stringIcSt11char_traitsIcESaIcEEE({})
+#endif
+#ifdef FSV_DEF__ZNSt12length_errorC2EPKc
+FSV_DEF__ZNSt12length_errorC2EPKc({})
+#endif
+#ifdef FSV_DEF__ZNSt12length_errorC2ERKNSt7__cxx1112basic_stringIcSt11char_traitsIcESaIcEEE
+FSV_DEF__ZNSt12length_errorC2ERKNSt7__cxx1112basic_stringIcSt11char_traitsIcESaIcEEE({})
+#endif
+#ifdef FSV_DEF__ZNSt12length_errorD0Ev
+FSV_DEF__ZNSt12length_errorD0Ev({})
+#endif
+#ifdef FSV_DEF__ZNSt12length_errorD1Ev
+FSV_DEF__ZNSt12length_errorD1Ev({})
+#endif
+#ifdef FSV_DEF__ZNSt12length_errorD2Ev
+FSV_DEF__ZNSt12length_errorD2Ev({})
+#endif
+#ifdef FSV_DEF__ZNSt12domain_errorC1EPKc
+FSV_DEF__ZNSt12domain_errorC1EPKc({})
+#endif
+#ifdef FSV_DEF__ZNSt12domain_errorC1ERKNSt7__cxx1112basic_stringIcSt11char_traitsIcESaIcEEE
+FSV_DEF__ZNSt12domain_errorC1ERKNSt7__cxx1112basic_stringIcSt11char_traitsIcESaIcEEE({})
+#endif
+#ifdef FSV_DEF__ZNSt12domain_errorC2EPKc
+FSV_DEF__ZNSt12domain_errorC2EPKc({})
+#endif
+#ifdef FSV_DEF__ZNSt12domain_errorC2ERKNSt7__cxx1112basic_stringIcSt11char_traitsIcESaIcEEE
+FSV_DEF__ZNSt12domain_errorC2ERKNSt7__cxx1112basic_stringIcSt11char_traitsIcESaIcEEE({})
+#endif
+#ifdef FSV_DEF__ZNSt12domain_errorD0Ev
+FSV_DEF__ZNSt12domain_errorD0Ev({})
+#endif
+#ifdef FSV_DEF__ZNSt12domain_errorD1Ev
+FSV_DEF__ZNSt12domain_errorD1Ev({})
+#endif
+#ifdef FSV_DEF__ZNSt12domain_errorD2Ev
+FSV_DEF__ZNSt12domain_errorD2Ev({})
+#endif
+#ifdef FSV_DEF__ZNSt11range_errorC1EPKc
+FSV_DEF__ZNSt11range_errorC1EPKc({})
+#endif
+#ifdef FSV_DEF__ZNSt11range_errorC1ERKNSt7__cxx1112basic_stringIcSt11char_traitsIcESaIcEEE
+FSV_DEF__ZNSt11range_errorC1ERKNSt7__cxx1112basic_stringIcSt11char_traitsIcESaIcEEE({})
+#endif
+#ifdef FSV_DEF__ZNSt11range_errorC2EPKc
+FSV_DEF__ZNSt11range_errorC2EPKc({})
+#endif
+#ifdef FSV_DEF__ZNSt11range_errorC2ERKNSt7__cxx1112basic_stringIcSt11char_traitsIcESaIcEEE
+FSV_DEF__ZNSt11range_errorC2ERKNSt7__cxx1112basic_stringIcSt11char_traitsIcESaIcEEE({})
+#endif
+#ifdef FSV_DEF__ZNSt11range_errorD0Ev
+FSV_DEF__ZNSt11range_errorD0Ev({})
+#endif
+#ifdef FSV_DEF__ZNSt11range_errorD1Ev
+FSV_DEF__ZNSt11range_errorD1Ev({})
+#endif
+#ifdef FSV_DEF__ZNSt11range_errorD2Ev
+FSV_DEF__ZNSt11range_errorD2Ev({})
+#endif
+#ifdef FSV_DEF__ZNSt14overflow_errorC1EPKc
+FSV_DEF__ZNSt14overflow_errorC1EPKc({})
+#endif
+#ifdef FSV_DEF__ZNSt14overflow_errorC1ERKNSt7__cxx1112basic_stringIcSt11char_traitsIcESaIcEEE
+FSV_DEF__ZNSt14overflow_errorC1ERKNSt7__cxx1112basic_stringIcSt11char_traitsIcESaIcEEE({})
+#endif
+#ifdef FSV_DEF__ZNSt14overflow_errorC2EPKc
+FSV_DEF__ZNSt14overflow_errorC2EPKc({})
+#endif
+#ifdef FSV_DEF__ZNSt14overflow_errorC2ERKNSt7__cxx1112basic_stringIcSt11char_traitsIcESaIcEEE
+FSV_DEF__ZNSt14overflow_errorC2ERKNSt7__cxx1112basic_stringIcSt11char_traitsIcESaIcEEE({})
+#endif
+#ifdef FSV_DEF__ZNSt14overflow_errorD0Ev
+FSV_DEF__ZNSt14overflow_errorD0Ev({})
+#endif
+#ifdef FSV_DEF__ZNSt14overflow_errorD1Ev
+FSV_DEF__ZNSt14overflow_errorD1Ev({})
+#endif
+#ifdef FSV_DEF__ZNSt14overflow_errorD2Ev
+FSV_DEF__ZNSt14overflow_errorD2Ev({})
 #endif
